@@ -362,6 +362,23 @@ pub fn run(ctx: &Ctx) {
         },
         |(s, v), l| check_sweep(s, v, l),
     );
+    // every small payload length followed by one-byte items (growable / Extend sinks may stage small writes)
+    ctx.par_range("small-payload-then-byte-sweep", 81 * 4, |i, l| {
+        let n = (i / 4) as usize;
+        let (s, v) = match i % 4 {
+            0 => (Shape::Tuple(vec![Shape::Str, Shape::Bool]), Value::List(vec![Value::Str("1234567890".repeat(9)[..n].to_string()), Value::Bool(true)])),
+            1 => (Shape::Tuple(vec![Shape::ByteBuf, Shape::U8, Shape::U8]), Value::List(vec![Value::Bytes(vec![7; n]), Value::U(1), Value::U(2)])),
+            2 => (
+                Shape::Tuple(vec![Shape::U8, Shape::String, Shape::Option(Box::new(Shape::I8))]),
+                Value::List(vec![Value::U(9), Value::Str("x".repeat(n)), Value::Some(Box::new(Value::I(-1)))]),
+            ),
+            _ => (
+                Shape::Seq(Box::new(Shape::Tuple(vec![Shape::Str, Shape::Bool]))),
+                Value::List(vec![Value::List(vec![Value::Str("a".repeat(n)), Value::Bool(false)]), Value::List(vec![Value::Str("b".repeat(n / 2)), Value::Bool(true)])]),
+            ),
+        };
+        check_sweep(&s, &v, l)
+    });
     // Display-collected text (collect_str: the length is only known after formatting) at the varint boundaries of its length
     {
         let lens: Vec<usize> = vec![0, 1, 2, 126, 127, 128, 129, 130, 200, 255, 256, 300, 16383, 16384, 16385];
